@@ -590,7 +590,16 @@ async fn run_case(case: &Case) -> CaseOut {
                     1 => objects.extend([99u8, 1, 0x06]),
                     _ => objects.extend([111u8, 0, 0x28, 1, 0, 3, 0]),
                 }
-                let f = Fragment { fir: true, fin: true, con: *con, uns: true, seq: unsol_seq, func: func::UNSOLICITED_RESPONSE, iin: Some((0, 0)), objects };
+                let f = Fragment {
+                    fir: true,
+                    fin: true,
+                    con: *con,
+                    uns: true,
+                    seq: unsol_seq,
+                    func: func::UNSOLICITED_RESPONSE,
+                    iin: Some((0, 0)),
+                    objects,
+                };
                 rig.respond(OUT_A, &f);
                 rig.settle().await;
                 if link_task && !link_done {
